@@ -443,6 +443,9 @@ func (e *specEnv) callExpr(c *ast.CallExpr) Val {
 				return scalar(mk("fp.isInfinite", SBool, e.expr(c.Args[0]).T), types.Typ[types.Bool])
 			case "feq":
 				return scalar(StructEq(e.expr(c.Args[0]).T, e.expr(c.Args[1]).T), types.Typ[types.Bool])
+			case "sameSlice":
+				a, b := e.expr(c.Args[0]), e.expr(c.Args[1])
+				return scalar(And(Eq(a.base(), b.base()), Eq(a.off(), b.off()), Eq(a.len(), b.len())), types.Typ[types.Bool])
 			case "sameElems":
 				// sameElems(a, b): slices a (current state) and b (current state) have equal length and elements — quantifier-free via row equality when offsets match
 				e.fail(c, "sameElems not supported")
